@@ -7,8 +7,8 @@
    check on every generated certificate); [describe] mirrors getCertificateInfo line by line.
    [enc_ok] is RFC 5280 well-formedness as far as needed (extensions only in v3, key identifiers
    non-empty, pathLenConstraint >= 0, OIDs non-empty).  Subject / issuer text is names.FromRawDN's (C15). *)
-From WI Require Import Lib.Base Lib.Info Lib.Time Model.Cert Model.CertDer Proofs.CertTime Proofs.Cert Proofs.CertDer Proofs.CertDerCanon.
-From WI Require gen.CertTables.
+From WI Require Import Lib.Base Lib.Info Lib.Time Model.Cert Model.CertDer Model.NameDer Proofs.CertTime Proofs.Cert Proofs.CertDer Proofs.CertDerCanon Proofs.NameDer.
+From WI Require gen.CertTables Model.Dn Lib.Rfc4514 Proofs.Dn.
 From Coq Require Import Permutation.
 Open Scope N_scope.
 
@@ -378,3 +378,93 @@ Print Assumptions C03_bit_string_octets.
 Theorem C03_canonical_example_meets_hypotheses : canon_ok ex_canon_oracles ex_raw ex_canon_content.
 Proof. exact ex_canon_ok. Qed.
 Print Assumptions C03_canonical_example_meets_hypotheses.
+
+(* ---- the Name SEQUENCEs from their octets (Model/NameDer.v, Proofs/NameDer.v): no name oracle ----
+   [aname]: a name as written - RDNs in encoded order, the attributes of an RDN in encoded order, each value
+   (universal tag number, content octets).  [name_content] writes the content of the Name SEQUENCE
+   (SET OF SEQUENCE { OID, string }).  [name_ok n]: every attribute type has at least two arcs, first arc 0..2,
+   second below 40 under 0 and 1, every sub-identifier below 2^31 (what both Go decoders can hold); every value is
+   a PrintableString / NumericString / IA5String / T61String / UTF8String / BMPString whose content is valid
+   for the type ([str_ok]); the whole is shorter than 2^31 octets.  [decoded n] is the RDNSequence with the Go
+   strings of the values ([str_text]: the octets, or UTF-8 of the UTF-16 text of a BMPString);
+   [Dn.render_dn] is C15's model of names.FromRDNSequence.  [name_text] is the model of crypto/x509's parseName
+   (acceptance) followed by names.FromRawDN on the octets (encoding/asn1 + attributeValue + FromRDNSequence). *)
+Theorem C03_name_roundtrip : forall n : aname, name_ok n = true ->
+  name_text (name_content n) = Some (Dn.render_dn (decoded n)).
+Proof. exact name_roundtrip. Qed.
+Print Assumptions C03_name_roundtrip.
+
+(* crypto/x509 itself reads the same attribute types and strings from those octets *)
+Theorem C03_name_library_reads : forall n : aname, name_ok n = true ->
+  x509_parse_name (name_content n) = Some (map (map x509_atv) n).
+Proof. exact x509_name_roundtrip. Qed.
+Print Assumptions C03_name_library_reads.
+
+(* the two OBJECT IDENTIFIER decoders a name passes through agree: whatever content cryptobyte accepts,
+   encoding/asn1 decodes to the same arcs (for ALL octet strings) *)
+Theorem C03_name_oid_decoders_agree : forall c o, bytes_ok c = true ->
+  cb_oid c = Some o -> WI.Model.Der.dec_oid_legacy c = Some o.
+Proof. exact legacy_of_cb_oid. Qed.
+Print Assumptions C03_name_oid_decoders_agree.
+
+(* the text shown, read by the RFC 4514 reader (C15's specification), is exactly the encoded attribute types
+   and values, RDN by RDN, most specific first (strings that are valid UTF-8: all but T61String oddities) *)
+Theorem C03_name_reads_back : forall n : aname, name_ok n = true -> texts_utf8 n = true ->
+  match name_text (name_content n) with Some t => Rfc4514.parse_rdns t | None => None end =
+  Some (map (map WI.Proofs.Dn.patv_of) (filter Dn.nonempty (rev (decoded n)))).
+Proof. exact name_reads_back. Qed.
+Print Assumptions C03_name_reads_back.
+
+(* octets after the Name: names.FromRawDN shows the whole input in hex, never a name that is not encoded *)
+Theorem C03_name_trailing_octets_hex : forall (n : aname) x r, name_ok n = true ->
+  from_raw_dn_der (name_enc n ++ x :: r) = hex_of false (name_enc n ++ x :: r).
+Proof. exact name_trailing_hex. Qed.
+Print Assumptions C03_name_trailing_octets_hex.
+
+(* a value that is not a valid string of the six types (identifier octet t, content c: an INTEGER, a GeneralString,
+   a PrintableString holding '@', ...) makes crypto/x509 refuse the name - hence the certificate - wherever it
+   stands: after any well-formed RDNs, after any well-formed attributes of its own RDN, whatever follows it.  So
+   the '#'hex form of names.FromRawDN is never shown for a certificate, and no text is invented for such a name *)
+Theorem C03_name_bad_value_refused : forall (pre : aname) (r : list aatv) o t c extra after_atv after_rdn,
+  forallb (forallb atv_ok) pre = true -> forallb atv_ok r = true ->
+  oid_cb_ok o = true -> tag_ok t = true -> string_value t c = None ->
+  let content := name_content pre ++ tlv_enc 49 (rdn_body r ++ bad_atv o t c extra ++ after_atv) ++ after_rdn in
+  len_ok (length content) = true ->
+  name_text content = None.
+Proof. exact name_bad_value_refused. Qed.
+Print Assumptions C03_name_bad_value_refused.
+
+(* Subject and Issuer from the octets of the certificate.  [with_names o] answers the two Names by [name_text]
+   (the name oracle of o is not consulted); [with_written_names d iss sub] is the certificate as written d with
+   the written names iss / sub; [der_ok_but_names] is der_ok without its two clauses about the name oracle.
+   C03_der_roundtrip (above, for any oracles) is kept and instantiated, not weakened: the octet-level model
+   yields x509_spec of what is encoded, whose subject / issuer are C15's rendering of the written names, and
+   the report shows exactly these under Subject and Issuer. *)
+Theorem C03_subject_issuer_faithful : forall o d (iss sub : aname),
+  name_ok iss = true -> name_ok sub = true ->
+  der_ok_but_names o (with_written_names d iss sub) ->
+  let d' := with_written_names d iss sub in
+  parse_certificate_der (with_names o) (cert_enc d') = Some (x509_spec (abstract (with_names o) d')) /\
+  e_subject (abstract (with_names o) d') = Dn.render_dn (decoded sub) /\
+  e_issuer (abstract (with_names o) d') = Dn.render_dn (decoded iss) /\
+  match describe_der (with_names o) (cert_enc d') with
+  | Some i => attr_values (bs "Subject") i = [Dn.render_dn (decoded sub)] /\
+              attr_values (bs "Issuer") i = [Dn.render_dn (decoded iss)]
+  | None => False
+  end.
+Proof. exact subject_issuer_faithful. Qed.
+Print Assumptions C03_subject_issuer_faithful.
+
+(* non-vacuity: a name of two RDNs, the second multi-valued (three attributes in written order, four string
+   types, an unknown attribute type, escaped characters, a BMPString with a surrogate pair) meets name_ok;
+   its octets (the harness hands exactly these to names.FromRawDN and crypto/x509: case name:coq-encoded) and
+   its text; and example_der with written names meets the hypotheses of C03_subject_issuer_faithful *)
+Theorem C03_name_example_meets_hypotheses : name_ok ex_name = true /\ texts_utf8 ex_name = true.
+Proof. exact ex_name_hyps. Qed.
+Print Assumptions C03_name_example_meets_hypotheses.
+
+Theorem C03_named_certificate_example_meets_hypotheses :
+  name_ok ex_issuer_name = true /\ name_ok ex_name = true /\
+  der_ok_but_names ex_oracles (with_written_names example_der ex_issuer_name ex_name).
+Proof. exact ex_named_cert_ok. Qed.
+Print Assumptions C03_named_certificate_example_meets_hypotheses.
